@@ -70,6 +70,7 @@ func (d *tDecoder) Decode(b []byte, base unsafe.Pointer, sd *structDesc, maxdept
 	var bs *bitset
 	if len(sd.requiredFieldIDs) > 0 {
 		bs = bitsetPool.Get().(*bitset)
+		verifPoolGet(verifPoolBitset, unsafe.Pointer(bs), nil)
 		defer bitsetPool.Put(bs)
 		for _, f := range sd.requiredFieldIDs {
 			bs.unset(f)
@@ -79,6 +80,7 @@ func (d *tDecoder) Decode(b []byte, base unsafe.Pointer, sd *structDesc, maxdept
 	var ufs *unknownFields
 	if sd.hasUnknownFields {
 		ufs = unknownFieldsPool.Get().(*unknownFields)
+		verifPoolGet(verifPoolUnknown, unsafe.Pointer(ufs), nil)
 		defer unknownFieldsPool.Put(ufs)
 		ufs.Reset()
 	}
@@ -282,6 +284,7 @@ func (d *tDecoder) decodeType(t *tType, b []byte, p unsafe.Pointer, maxdepth int
 		// tmpv = decode(b)
 		// map[tmpk] = tmpv
 		tmp := t.MapTmpVarsPool.Get().(*tmpMapVars)
+		verifPoolGet(verifPoolMapTmp, unsafe.Pointer(tmp), t)
 		k := tmp.k
 		v := tmp.v
 		kp := tmp.kp
